@@ -191,7 +191,8 @@ func (g *Gen) Next(run *Run) Op {
 			{"kill", 1}, {"updblobber", 2}, {"bad", 1}, {"addassigner", 12}, {"freealloc", 45}}
 	case "C14":
 		ws = []kw{{"newalloc", 10}, {"wplock", 8}, {"commit", 16}, {"genchal", 10}, {"chalresp", 10}, {"update", 8},
-			{"finalize", 14}, {"cancel", 10}, {"rplock", 1}, {"read", 2}, {"kill", 2}, {"shutdown", 1}, {"updblobber", 3}, {"bad", 1}}
+			{"finalize", 14}, {"cancel", 10}, {"rplock", 1}, {"read", 2}, {"kill", 2}, {"shutdown", 1}, {"updblobber", 3}, {"bad", 1},
+			{"settings", 3}, {"commitsettings", 2}}
 	case "C09":
 		ws = []kw{{"newalloc", 6}, {"wplock", 5}, {"commit", 18}, {"genchal", 10}, {"chalresp", 12}, {"update", 12},
 			{"finalize", 5}, {"cancel", 4}, {"rplock", 4}, {"read", 6}, {"kill", 2}, {"shutdown", 1}, {"updblobber", 4}, {"bad", 1}, {"rpunlock", 2},
@@ -665,6 +666,16 @@ func (g *Gen) Next(run *Run) Op {
 		}
 		return o
 
+	case "settings":
+		tu := s.TU / 1000000000
+		o := Op{K: "settings", Dt: dt, S: refOwner, N: r.Pick64([]int64{tu * 3, tu * 2, tu / 2, 3600, 86400, 7200, 1})}
+		if r.Chance(1, 6) {
+			o.S = cli()
+		}
+		return o
+	case "commitsettings":
+		return Op{K: "commitsettings", Dt: dt, S: cli()}
+
 	case "addassigner":
 		o := Op{K: "addassigner", Dt: dt, S: refOwner, C: refAssigner + r.Intn(2),
 			F: pickF(r, []float64{5, 1, 0.5, 100, 101, 2.5}), G: pickF(r, []float64{20, 3, 1000, 1001, 7.5})}
@@ -784,6 +795,102 @@ func (g *Gen) Script(run *Run) *Op {
 		return &Op{K: "freealloc", Dt: 5, S: refClient + r.Intn(h.NCli), A: g.NLabel, B: 0, N: nonce, Bl: bl, F: pickF(r, []float64{1, 0.5, 2})}
 	}
 	switch g.script {
+	case "time-unit-change-close":
+		// the network time unit is changed (update_settings) while an allocation with settled challenges is open, then it is closed
+		switch {
+		case g.step == 0:
+			return newAlloc()
+		case g.step <= 2:
+			return upload(g.step-1, false)
+		case g.step <= 6:
+			l, a := firstOpen()
+			if a == nil {
+				break
+			}
+			if len(a.OpenCh) > 0 {
+				return &Op{K: "chalresp", Dt: r.Pick64([]int64{1, 5, 30}), A: l, N: int64(r.Intn(3))}
+			}
+			return &Op{K: "genchal", Dt: r.Pick64([]int64{60, 300, 600}), S: refClient}
+		case g.step == 7:
+			tu := s.TU / 1000000000
+			return &Op{K: "settings", Dt: 5, S: refOwner, N: r.Pick64([]int64{tu * 3, tu * 3, tu * 2, tu / 2, tu / 4})}
+		case g.step == 8:
+			return &Op{K: "commitsettings", Dt: 5, S: refClient}
+		case g.step == 9:
+			l, a := firstOpen()
+			if a == nil {
+				break
+			}
+			if r.Chance(2, 3) {
+				return &Op{K: "cancel", Dt: r.Pick64([]int64{60, 600, 5}), S: a.Owner, A: l}
+			}
+			return &Op{K: "finalize", Dt: a.Exp - run.Now + r.Pick64([]int64{0, 1, 100}), Dr: r.Pick64([]int64{0, 10}), S: a.Owner, A: l}
+		}
+	case "odd-extend-then-replace":
+		// 2-3 data shards, size increases that are not multiples of the data shards (the recorded per-blobber
+		// sizes drift above ceil(size/data)), then a blobber - live or killed - is replaced
+		switch {
+		case g.step == 0:
+			o := newAlloc()
+			d := 1
+			if nb >= 5 {
+				d = 3
+			} else if nb >= 4 {
+				d = 2
+			}
+			size := r.Pick64([]int64{GB, 3 * 100 * MB, 10*MB + 1})
+			bs := int64(math.Ceil(float64(size) / float64(d)))
+			var bl []int
+			for _, b := range r.Perm(nb) {
+				if g.eligible(s, h, b, bs) && len(bl) < d+1 {
+					bl = append(bl, b)
+				}
+			}
+			o.D, o.P, o.N, o.Bl = d, 1, size, bl
+			return o
+		case g.step <= 3:
+			l, a := firstOpen()
+			if a == nil {
+				break
+			}
+			return &Op{K: "update", Dt: 5, S: a.Owner, A: l, N: r.Pick64([]int64{1, 1000, 7, GB + 1, 1000001, 2}), V: r.PickU64([]uint64{1e11, 5e11})}
+		case g.step == 4:
+			_, a := firstOpen()
+			if a == nil {
+				break
+			}
+			if r.Chance(1, 3) {
+				return &Op{K: "kill", Dt: 5, S: refOwner, B: a.BAs[r.Intn(len(a.BAs))].Blobber}
+			}
+			return &Op{K: "genchal", Dt: 5, S: refClient}
+		case g.step == 5:
+			l, a := firstOpen()
+			if a == nil {
+				break
+			}
+			rm := a.BAs[r.Intn(len(a.BAs))].Blobber
+			for _, d := range a.BAs {
+				if s.Blob[d.Blobber].Killed {
+					rm = d.Blobber
+				}
+			}
+			ad := -1
+			for _, b := range r.Perm(nb) {
+				if !inAlloc(a, b) && g.eligible(s, h, b, a.BAs[0].Size) {
+					ad = b
+				}
+			}
+			if ad < 0 {
+				break
+			}
+			return &Op{K: "update", Dt: 5, S: a.Owner, A: l, Ad: ad + 1, Rm: rm + 1, V: r.PickU64([]uint64{0, 1e10})}
+		case g.step == 6:
+			l, a := firstOpen()
+			if a == nil {
+				break
+			}
+			return &Op{K: "cancel", Dt: 5, S: a.Owner, A: l}
+		}
 	case "duplicate-blobber-alloc":
 		// a request whose blobber list names one blobber twice (and nothing else), then a close
 		switch g.step {
